@@ -561,7 +561,12 @@ def run(ctx):
         else:
             ctx.notes.append(f"known finding {kf['signature']} no longer reproduces")
     # the generated copy specification against what Model.copy is observed to do (correspondence of the table)
-    table_ok, table_n, mism = translate_copy.validate_table(rng)
+    try:
+        table_ok, table_n, mism = translate_copy.validate_table(rng)
+    except Exception as e:      # Model.copy is written in a form the translator does not read: the obligation is broken, the search above decides
+        table_ok, table_n, mism = 0, 0, []
+        if not any(b.get("kind") == "translator" for b in ctx.broken):
+            ctx.broken.append({"kind": "translator", "name": "translate_copy", "detail": f"{type(e).__name__}: {e}"[:600]})
     for x in mism[:3]:
         ctx.broken.append({"kind": "correspondence", "name": "Gen.CopySpec vs observed Model.copy", "detail": x})
     ctx.coverage.update({
